@@ -281,12 +281,14 @@ def outcome_for(r, sig_out, token):
         return ('raise', e), ('error', 'org.txdbus.PythonException.VerifError', 'boom ' + token)
     if k < 0.78:
         e = err_class(token)('named ' + token)
-        e.dbusErrorName = 'org.verif.Error.Custom'
-        return ('raise', e), ('error', 'org.verif.Error.Custom', 'named ' + token)
+        e.dbusErrorName = r.choice(['org.verif.Error.Custom', 'org.verif.Error.Custom', 'myapp.Failure', 'a.b', 'a._9',
+                                    'a.' + 'b' * 253, 'org.verif-not.Valid' if False else 'org.verif.E_2.x'])
+        return ('raise', e), ('error', e.dbusErrorName, 'named ' + token)
     if k < 0.86:
         e = err_class(token)('badname ' + token)
         e.dbusErrorName = r.choice(['nodots', '1.starts.with.digit', 'a..b', 'has space.x', '', 'a.b\0c', 'a.b\udc80',
-                                    'a.b\nc', 'a.' + 'b' * 300])
+                                    'a.b\nc', 'a.' + 'b' * 300, 'org.verif.Error.FromFile\n', 'a.b\r\n', '\na.b', 'a.b ',
+                                    'a.b\t', 'a.b.', '.a.b', 'a.b%s', 'a.{0}', 'a.b\x00'])
         return ('raise', e), ('error', 'org.txdbus.InvalidErrorName', 'badname ' + token)
     if k < 0.90:
         e = err_class(token)('nul\0text ' + token)
